@@ -1015,7 +1015,7 @@ func c44RunHistory(c *kit.Ctx, i int, scratch string) {
 		return
 	}
 	key := fnd.Key
-	small := kit.Shrink(ops, 60, func(cand []c44Op) bool { return c44Replay(cfg, scratch, cand) == key })
+	small := kit.Shrink(ops, 30, func(cand []c44Op) bool { return c44Replay(cfg, scratch, cand) == key })
 	tail := ops
 	if len(tail) > 40 {
 		tail = tail[len(tail)-40:]
@@ -1064,7 +1064,7 @@ func TestVerifC44Sequential(t *testing.T) {
 			defer wg.Done()
 			for {
 				i := int(nextCase.Add(1)) - 1
-				if i >= n || c.Violations() > 10 {
+				if i >= n || c.Violations() > 2 {
 					return
 				}
 				c44RunHistory(c, i, scratch)
